@@ -68,6 +68,8 @@ type Plan struct {
 	// CoincideReorg: the head event that carries a reorg affecting the current epoch's attester duties arrives
 	// exactly when that slot's attestation job is due (slot start + attestation delay).
 	CoincideReorg bool `json:"coincide_reorg,omitempty"`
+	// RootFailSlots: every node fails the head-root requests made during these slots.
+	RootFailSlots []uint64 `json:"root_fail_slots,omitempty"`
 	// OddSpec: a zero or absurd value in the chain specification the node serves (C16 only).
 	OddSpec string `json:"odd_spec,omitempty"`
 	// AttestTakes: how long the recording attester (focused variant) stays inside Attest (default 300ms).
